@@ -28,6 +28,18 @@ def op_label(op):
     return t
 
 
+def stale_signature(before_spec, after_spec, op):
+    """signature of a 'live system differs from a fresh build' violation: last operation kind plus
+    the trigger predicate that held on the pre-state (so that a different violation is still reported)"""
+    lab = op_label(op)
+    if history.has_shared_job(before_spec) or history.has_shared_job(after_spec):
+        return "C01:stale:shared-job"
+    if op["op"] == "setlink" and op.get("attr") == "usage_journey" and not history.journey_jobs(
+            before_spec, before_spec["patterns"][op["name"]]["usage_journey"]):
+        return "C01:stale-after-set:patterns.usage_journey:from-jobless-journey"
+    return f"C01:stale-after-{lab}"
+
+
 def totals_snapshot(system):
     e = {k: realsys.canon(v) for k, v in system.total_energy_footprint_sum_over_period.items()}
     f = {k: realsys.canon(v) for k, v in system.total_fabrication_footprint_sum_over_period.items()}
@@ -177,7 +189,7 @@ def edit_vs_rebuild_shard(args):
             out["ops"][lab] = out["ops"].get(lab, 0) + 1
             why, fresh = compare_with_fresh(live)
             if why:
-                sig = f"C01:stale-after-{lab}" + (":shared-job" if history.has_shared_job(before_spec) or history.has_shared_job(live.spec) else "")
+                sig = stale_signature(before_spec, live.spec, op)
                 out["violations"].append({"signature": sig, "detail": why, "replay": {"spec": spec, "ops": list(hist_ops)}})
                 break
             sysobj = live.rs.system
